@@ -73,19 +73,7 @@ def users_of(f, call):
     return out
 
 
-def loop_of(f, bb):
-    """natural loop with header bb (the block calling next()): header + every block that reaches a back-edge source
-    without passing through the header"""
-    backs = [p for p in f.pred[bb] if p in f.dom and bb in f.dom[p]]
-    body = {bb}
-    st = list(backs)
-    while st:
-        b = st.pop()
-        if b in body:
-            continue
-        body.add(b)
-        st.extend(p for p in f.pred[b] if p in f.live_blocks)
-    return body
+from ..query import loop_of  # noqa: E402  (moved to query.py)
 
 
 def body_effects(prog, f, next_call):
@@ -398,6 +386,10 @@ def r2(ctx):
             T = (TRANSPARENT | {"next", "map_err", "into_iter"}) - {"get"}
             ok = all(any(o.kind == "call" and o.ref is go[0] for o in deep_roots(prog, f, c.args[1], T)) for c in inserts)
         ctx.ob("R2", "%s inserts ids taken from get_order" % f.name, ok, "the id passed to %s comes from the vector returned by TopologicalSort::get_order" % ins, where=f.loc())
+    vd = ctx.anchor("R2", r"^ast_grep_config::rule::deserialize_env::visit_dependent_rule_ids$")
+    if vd:
+        from .c12 import visitor_examines_all_fields
+        visitor_examines_all_fields(ctx, "R2", vd)
     # get_order: result is the sorter's `order` vector filled by visit (post-order)
     f = ctx.anchor("R2", r"deserialize_env::TopologicalSort::<'a, T>::visit$")
     if f:
